@@ -6,7 +6,7 @@ from vf.irparse import IntT, FpT
 
 ID = 'C30'
 LEVEL = 'other'
-TUS = ['src/engine/engine_forward.c', 'src/engine/engine_core_util.c', 'src/engine/engine_util_misc.c']
+TUS = ['src/engine/engine_forward.c', 'src/engine/engine_core_util.c', 'src/engine/engine_util_misc.c', 'src/engine/engine_util_blas.c']
 EXPLANATION = ('llsym in exact IEEE-754 binary64 mode executes the real mju_isBad and mj_checkPos/mj_checkVel/mj_checkAcc (with the real mj_warning); '
                'mj_resetData and mj_forward are uninterpreted logged calls. For every double x: isBad(x) <=> NaN or |x| > mjMAXVAL. For all state '
                'contents (nq, nv <= 3, every bit pattern incl. NaN/Inf), all option flag words and all sleep filters: a bad entry raises the matching warning, '
@@ -31,7 +31,7 @@ void vfstub_mj_forward(const void* m, void* d) { vf_log_call("mj_forward"); }
 
 def so():
     if 'so' not in _c:
-        _c['so'] = build.native_lib(['src/engine/engine_forward.c'], ['src/engine/engine_core_util.c', 'src/engine/engine_util_misc.c', 'src/engine/engine_util_errmem.c'],
+        _c['so'] = build.native_lib(['src/engine/engine_forward.c'], ['src/engine/engine_core_util.c', 'src/engine/engine_util_misc.c', 'src/engine/engine_util_blas.c', 'src/engine/engine_util_errmem.c'],
                                     extra_c=STUB_C, redirect=['mj_resetData', 'mj_forward'], name='forward_check')
     return _c['so']
 
